@@ -275,27 +275,35 @@ func (ex *exec) mergeIn(b *ssa.BasicBlock) (*State, string) {
 	vc.declared[rn] = true
 	vc.addLine(fmt.Sprintf("(define-fun %s () Bool %s)", rn, reach))
 	st := ex.mergeCore(ins)
-	// baseline of the current frame segment
-	allSame, anyNil := true, false
-	for _, e := range ins {
-		if e.st.syncBase != ins[0].st.syncBase {
-			allSame = false
+	// baselines of the current frame segments, one per enclosing loop: kept where every incoming edge carries one
+	st.syncBase = nil
+	for hdr := range ins[0].st.syncBase {
+		all, same := true, true
+		for _, e := range ins {
+			b, ok := e.st.syncBase[hdr]
+			if !ok {
+				all = false
+				break
+			}
+			if b != ins[0].st.syncBase[hdr] {
+				same = false
+			}
 		}
-		if e.st.syncBase == nil {
-			anyNil = true
+		if !all {
+			continue
 		}
-	}
-	switch {
-	case allSame:
-		st.syncBase = ins[0].st.syncBase
-	case anyNil:
-		st.syncBase = nil // leaving the loop on some edge: no segment baseline beyond this point
-	default:
+		if st.syncBase == nil {
+			st.syncBase = map[*ssa.BasicBlock]*State{}
+		}
+		if same {
+			st.syncBase[hdr] = ins[0].st.syncBase[hdr]
+			continue
+		}
 		var ins2 []edgeIn
 		for _, e := range ins {
-			ins2 = append(ins2, edgeIn{cond: e.cond, st: e.st.syncBase, from: e.from})
+			ins2 = append(ins2, edgeIn{cond: e.cond, st: e.st.syncBase[hdr], from: e.from})
 		}
-		st.syncBase = ex.mergeCore(ins2)
+		st.syncBase[hdr] = ex.mergeCore(ins2)
 	}
 	return st, rn
 }
@@ -551,7 +559,10 @@ func (ex *exec) loopHead(li *loopInfo, st *State) {
 	}
 	ex.headSt[li.header] = st.clone()
 	if spec != nil && spec.HasModifies {
-		st.syncBase = ex.headSt[li.header]
+		if st.syncBase == nil {
+			st.syncBase = map[*ssa.BasicBlock]*State{}
+		}
+		st.syncBase[li.header] = ex.headSt[li.header]
 	}
 }
 
@@ -1253,8 +1264,8 @@ func (ex *exec) edge(st *State, from, to *ssa.BasicBlock, cond string) {
 			}
 			if pre := ex.loopPre[li.header]; pre != nil {
 				base := ex.headSt[li.header]
-				if st.syncBase != nil {
-					base = st.syncBase
+				if b, ok := st.syncBase[li.header]; ok {
+					base = b
 				}
 				ex.frameCheckAgainst(st, base, pre, spec.Modifies, cond, fmt.Sprintf("loop%d.frame", li.ordinal), pos, li)
 			}
@@ -1688,29 +1699,38 @@ func (ex *exec) chanOp(st *State, ins ssa.Instruction) {
 	if fc == nil || !fc.HasSync {
 		ex.bail("channel operation")
 	}
-	// the segment that ends here is checked against the loop's modifies clause before the other goroutines get their say
-	var segLoop *loopInfo
-	if st.syncBase != nil && ex.curBlock != nil {
+	// the segment that ends here is checked against the modifies clause of every enclosing loop that declares one,
+	// before the other goroutines get their say
+	var segLoops []*loopInfo
+	if ex.curBlock != nil {
 		for _, li := range ex.loops {
 			if li.blocks[ex.curBlock] {
 				if sp := ex.loopSpec(li); sp != nil && sp.HasModifies && ex.loopPre[li.header] != nil {
-					if segLoop == nil || len(li.blocks) < len(segLoop.blocks) {
-						segLoop = li
+					if _, ok := st.syncBase[li.header]; ok {
+						segLoops = append(segLoops, li)
 					}
 				}
 			}
 		}
 	}
-	if segLoop != nil {
-		ex.frameCheckAgainst(st, st.syncBase, ex.loopPre[segLoop.header], ex.loopSpec(segLoop).Modifies, ex.cur, fmt.Sprintf("loop%d.frame@sync", segLoop.ordinal), posStr(vc.eng.fset, ins.Pos()), segLoop)
+	for _, li := range segLoops {
+		ex.frameCheckAgainst(st, st.syncBase[li.header], ex.loopPre[li.header], ex.loopSpec(li).Modifies, ex.cur, fmt.Sprintf("loop%d.frame@sync", li.ordinal), posStr(vc.eng.fset, ins.Pos()), li)
 	}
 	before := st.clone()
 	keeps := ex.syncKeeps(before)
 	vc.havocAllHeap(st)
 	ex.applyKeeps(keeps, before, st, nil)
-	if segLoop != nil {
+	if len(segLoops) > 0 {
+		saved := st.syncBase
 		st.syncBase = nil
-		st.syncBase = st.clone()
+		snap := st.clone()
+		st.syncBase = map[*ssa.BasicBlock]*State{}
+		for k, v := range saved {
+			st.syncBase[k] = v
+		}
+		for _, li := range segLoops {
+			st.syncBase[li.header] = snap
+		}
 	}
 	// value received
 	if u, ok := ins.(*ssa.UnOp); ok {
